@@ -187,9 +187,75 @@ pub fn run(ctx: &Ctx) -> Report {
     let mut fired: BTreeMap<&'static str, BTreeSet<String>> = BTreeMap::new();
     let mut fired_how: BTreeMap<&'static str, BTreeSet<String>> = BTreeMap::new();
     let mut control_mismatch = 0u64;
+    let mut probed = 0u64;
     let mut workers_spawned = 0u64;
     let mut sets_done: BTreeSet<u32> = BTreeSet::new();
     let mut budget_cut = false;
+
+    // ---- phase 0: vacuity probes (never budget-cut: the guard must not depend on the clock) ----
+    // every opt-shape is loaded with `probe` on the 22 subsets at distance <= 1 (+ a second default
+    // process as control): does switching ONE pass change the IR shape / the generated code?
+    {
+        let probe_sets: Vec<u32> = toggle_sets(1);
+        let mut pw: Vec<(u32, Worker)> = vec![];
+        for &m in &probe_sets {
+            match Worker::spawn(&format!("probe-{}", set_label(m)), &env_for(m), &scratch) {
+                Ok(w) => pw.push((m, w)),
+                Err(e) => {
+                    rep.machinery(format!("cannot spawn probe worker: {e}"));
+                    return rep;
+                }
+            }
+        }
+        let mut control = Worker::spawn("probe-default-control", &env_for(ALL_ON), &scratch).ok();
+        // quick: one shape per pass is enough for the guard; thorough: every opt-shape
+        let probe_ids = [
+            "opt/cone/partsel", "opt/lut/chain8", "opt/lane/transpose16x8", "opt/dce/dead", "opt/hoist/shared",
+            "opt/fusion/chain", "opt/vsplit/k3", "opt/loads/repeat",
+        ];
+        for d in designs
+            .iter()
+            .filter(|d| d.class == "opt" && !is_huge(d))
+            .filter(|d| thorough || probe_ids.iter().any(|p| d.id.starts_with(p)))
+        {
+            let mut doc = load_doc(d, "jit");
+            // the cone-gate shapes show in the IR shape alone (cone_segments): no second build
+            doc["probe"] = json!(!d.has_tag("cone_gate"));
+            let line = format!("load {}", e2::hex(doc.to_string().as_bytes()));
+            let sent: Vec<Result<(), String>> = pw.iter_mut().map(|(_, w)| w.send(&line)).collect();
+            let csent = control.as_mut().map(|c| c.send(&line));
+            let mut shapes: BTreeMap<u32, String> = BTreeMap::new();
+            for (i, (m, w)) in pw.iter_mut().enumerate() {
+                if sent[i].is_ok() {
+                    if let Ok(s) = w.recv() {
+                        shapes.insert(*m, s);
+                    }
+                }
+            }
+            if let (Some(Ok(())), Some(c)) = (csent, control.as_mut()) {
+                if let Ok(s) = c.recv() {
+                    if shapes.get(&ALL_ON) != Some(&s) {
+                        control_mismatch += 1;
+                    }
+                }
+            }
+            probed += 1;
+            for (i, t) in TOGGLES.iter().enumerate() {
+                let bit = 1u32 << i;
+                for (a, b, how) in [(ALL_ON, ALL_ON & !bit, "default-minus"), (0u32, bit, "alloff-plus")] {
+                    if let (Some(x), Some(y)) = (shapes.get(&a), shapes.get(&b)) {
+                        if x != y {
+                            fired.entry(t.0).or_default().insert(d.id.clone());
+                            let (px, py) = (parse_shape(x), parse_shape(y));
+                            let keys: Vec<String> = px.iter().filter(|(k, v)| py.get(*k) != Some(v)).map(|(k, _)| k.clone()).collect();
+                            fired_how.entry(t.0).or_default().insert(format!("{how}:{}", keys.join(",")));
+                        }
+                    }
+                }
+            }
+        }
+        workers_spawned += pw.len() as u64 + 1;
+    }
 
     'waves: for (wi, wave) in waves.iter().enumerate() {
         if ctx.elapsed() > budget {
@@ -208,7 +274,6 @@ pub fn run(ctx: &Ctx) -> Report {
             }
         }
         workers_spawned += workers.len() as u64;
-        let mut control = if wi == 0 { Worker::spawn("default-control", &env_for(ALL_ON), &scratch).ok() } else { None };
 
         for d in &designs {
             if ctx.elapsed() > budget {
@@ -260,8 +325,8 @@ pub fn run(ctx: &Ctx) -> Report {
                 // load in parallel: send to all, then collect
                 let mut sent = vec![];
                 for (m, w) in members.iter_mut().map(|x| (&x.0, &mut x.1)) {
-                    let probe = g.probe && near(*m, 1);
-                    doc["probe"] = json!(probe);
+                    let _ = (m, g.probe);
+                    doc["probe"] = json!(false);
                     w.four = g.config.contains("4st");
                     sent.push(w.send(&format!("load {}", e2::hex(doc.to_string().as_bytes()))));
                 }
@@ -301,30 +366,6 @@ pub fn run(ctx: &Ctx) -> Report {
                         rep.violation(v);
                     }
                     continue;
-                }
-                // vacuity probes (wave 0, JIT group): which passes change the IR / the code?
-                if g.probe {
-                    if let Some(c) = control.as_mut() {
-                        doc["probe"] = json!(true);
-                        if let Ok(s) = c.load(&doc) {
-                            if shapes.get(&ALL_ON) != Some(&s) {
-                                control_mismatch += 1;
-                            }
-                        }
-                    }
-                    for (i, t) in TOGGLES.iter().enumerate() {
-                        let bit = 1u32 << i;
-                        for (a, b, how) in [(ALL_ON, ALL_ON & !bit, "default-minus"), (0u32, bit, "alloff-plus")] {
-                            if let (Some(x), Some(y)) = (shapes.get(&a), shapes.get(&b)) {
-                                if x != y {
-                                    fired.entry(t.0).or_default().insert(d.id.clone());
-                                    let (px, py) = (parse_shape(x), parse_shape(y));
-                                    let keys: Vec<String> = px.iter().filter(|(k, v)| py.get(*k) != Some(v)).map(|(k, _)| k.clone()).collect();
-                                    fired_how.entry(t.0).or_default().insert(format!("{how}:{}", keys.join(",")));
-                                }
-                            }
-                        }
-                    }
                 }
                 // explore (a group that started before the cut may not run far past it)
                 let mut gb = g.bounds.clone();
@@ -419,7 +460,6 @@ pub fn run(ctx: &Ctx) -> Report {
                 }
             }
         }
-        drop(control.take());
         drop(workers);
     }
 
@@ -450,6 +490,7 @@ pub fn run(ctx: &Ctx) -> Report {
     );
     rep.set("passes_fired_evidence", json!(fired_how));
     rep.set("probe_control_mismatches", control_mismatch);
+    rep.set("designs_probed", probed);
     rep.set("exhaustive", !budget_cut && agg.capped == 0 && agg.not_run == 0 && sets_done.len() as u64 == requested_sets);
     rep.set(
         "rule",
@@ -459,7 +500,7 @@ pub fn run(ctx: &Ctx) -> Report {
     rep.assume("a divergence names the toggle set of the first diverging machine (machines ordered by number of passes on)");
     if agg.explorations == 0 {
         rep.machinery("vacuity guard: nothing was explored");
-    } else if !budget_cut || thorough {
+    } else {
         for t in TOGGLES.iter() {
             if fired.get(t.0).map(|s| s.len()).unwrap_or(0) == 0 {
                 rep.machinery(format!("vacuity guard: pass {} never changed the IR or the generated code of any design (not_exercised)", t.0));
